@@ -329,6 +329,11 @@ pub fn drain(s: &mut In) -> bool {
         s.conn.window(true);
         return true;
     }
+    if s.held {
+        s.held = false;
+        crate::world::hold_readiness(false);
+        return true;
+    }
     if s.conn.gates.open_all(GateOutcome::Ok) {
         return true;
     }
